@@ -1,8 +1,8 @@
-import XjsModel.Proofs.RsLemmas
+import XjsModel.Proofs.RaLemmas
 /-
   Round trip, part 4: one lemma per node kind, each from the invariant of the children.
 -/
-namespace Xjs.RS
+namespace Xjs.RA
 open Xjs
 
 variable {cfg : PCfg}
@@ -34,9 +34,12 @@ theorem case_atom (hc : BaseCfg cfg) (t : Token) (hw : (SE.atom t).wf = true) : 
   simp only [Option.bind_eq_bind, Option.bind_some, hcur]
   simp [SE.tree, SE.toks, nextK]
 
-theorem case_grp (hc : BaseCfg cfg) (e : SE) (hw : e.wf = true) (ih : Main cfg e) : Main cfg (.grp e) := by
+theorem case_grp (hc : BaseCfg cfg) (lp : Token) (e : SE) (rp : Token) (hw : (SE.grp lp e rp).wf = true) (ih : Main cfg e) :
+    Main cfg (.grp lp e rp) := by
   intro p st rest hr ht _ _
-  have := group_case hc e hw ih p st rest hr (by simpa [SE.toks] using ht)
+  have hw' : (lp.type == .lparen && rp.type == .rparen && e.wf) = true := by simpa [SE.wf] using hw
+  simp only [Bool.and_eq_true, beq_iff_eq] at hw'
+  have := group_case' hc lp rp hw'.1.1 hw'.1.2 e hw'.2 ih p st rest hr (by simpa [SE.toks] using ht)
   simpa [SE.tree, SE.toks] using this
 
 theorem case_un (hc : BaseCfg cfg) (t : Token) (r : SE) (hw : (SE.un t r).wf = true) (ih : Main cfg r) : Main cfg (.un t r) := by
@@ -100,7 +103,7 @@ theorem case_bin (hc : BaseCfg cfg) (t : Token) (l r : SE) (hw : (SE.bin t l r).
   have ht1 : st.toks = WL ++ (t :: WR ++ rest) := by rw [ht, htoks]; simp
   -- left operand
   have hsL : stops cfg (if parenLeft my l then precAtomic else l.rbl) (t :: WR ++ rest) := by
-    right; show precOf cfg t.type ≤ _
+    apply stops_prec; show precOf cfg t.type ≤ _
     rw [hprec']
     by_cases hb : parenLeft my l = true
     · rw [if_pos hb]; unfold precAtomic; omega
@@ -177,7 +180,7 @@ theorem case_post (hc : BaseCfg cfg) (t : Token) (l : SE) (hw : (SE.post t l).wf
     simp [SE.toks]; omega
   generalize hWL : wrapToks (parenPostfix l) l.toks = WL at *
   have hsL : stops cfg (if parenPostfix l then precAtomic else l.rbl) (t :: rest) := by
-    right; show precOf cfg t.type ≤ _
+    apply stops_prec; show precOf cfg t.type ≤ _
     rw [hprec']
     by_cases hb : parenPostfix l = true
     · rw [if_pos hb]; decide
@@ -236,7 +239,7 @@ theorem suffix_left (hc : BaseCfg cfg) (l : SE) (hw : l.wf = true) (hl : precCal
   obtain ⟨lastL, hS1, _⟩ := toks_after l.toks (toks_ne_nil l) (t :: more) st ht
   refine ⟨lastL, ?_, hS1⟩
   apply ih p st (t :: more) (by simp) ht hfit
-  right
+  apply stops_prec
   show precOf cfg t.type ≤ l.rbl
   rw [rbl_of_call_level l hl hw, precOf_base hc]
   exact Nat.le_trans (precOf_le_member t.type) (by decide)
@@ -293,7 +296,7 @@ theorem case_dot (hc : BaseCfg cfg) (t : Token) (o : SE) (pr : Token) (hw : (SE.
     rw [unfold_expr, prefix_atom hc _ (by rw [hcur2]; simpa [SE.wf] using hwp)]
     simp only [Option.bind_eq_bind, Option.bind_some, hcur2]
     apply remaining_stop
-    right
+    right; left
     rw [peek_of_toks hS2, precOf_base hc]
     exact precOf_le_member _
   rw [eL, remaining_step _ p S1 (by rw [hpeek, hty]; decide) (by rw [hpeek, hty, precOf_dot hc]; exact hfit.1)
@@ -325,7 +328,7 @@ theorem case_idx (hc : BaseCfg cfg) (t : Token) (o pe : SE) (hw : (SE.idx t o pe
   have hS2 : S1.next.next.toks = pe.toks ++ rbT :: rest := by
     rw [next_toks_cons (next_toks_cons hS1), has]; simp
   have hstop : ∀ q, 1 ≤ q → stops cfg q (rbT :: rest) := by
-    intro q hq; right; show precOf cfg .rbracket ≤ q; rw [precOf_rbracket hc]; exact hq
+    intro q hq; apply stops_prec; show precOf cfg .rbracket ≤ q; rw [precOf_rbracket hc]; exact hq
   have e2 := eval_of_main pe ihp LOWEST S1.next.next (rbT :: rest) (by simp) hS2 (fits_lowest pe hwp)
     (hstop _ (rbl_ge_one pe hwp)) (hstop _ (by decide))
   obtain ⟨lastP, hl, _⟩ := toks_after pe.toks (toks_ne_nil pe) (rbT :: rest) S1.next.next hS2
@@ -427,4 +430,4 @@ theorem case_arr (hc : BaseCfg cfg) (t : Token) (es : SEList) (hw : (SE.arr t es
   congr 1
   simp [SE.toks]
 
-end Xjs.RS
+end Xjs.RA
